@@ -785,9 +785,9 @@ Section LimitExec.
         SEMM ft n (prog_of body) c1 = Fin (sg, c2) /\ (sg = Normal \/ sg = Cont) /\ Inv c2) ->
     Inv c ->
     exists c', mpasses ft n (oexpr_of cnd) (prog_of body) (S m_N) c c' /\ Inv c' /\
-      wf (set_world c' (add_log (world c') (limit_msg false line))) /\
+      wf (set_world c' (add_log (world c') (limit_msg (s_ja (world c')) false line))) /\
       exec_s (S n) (SWhile cnd body line :: rest) (Ok (emb ft m c))
-      = exec_s (S n) rest (Ok (emb ft m (set_world c' (add_log (world c') (limit_msg false line))))).
+      = exec_s (S n) rest (Ok (emb ft m (set_world c' (add_log (world c') (limit_msg (s_ja (world c')) false line))))).
   Proof.
     intros Hwf Hok Hstep Hinv.
     destruct (while_never_ends _ _ _ _ _ _ _ _ ML (funs_of ft) (SEMM ft n) Inv (oexpr_of cnd) (prog_of body) line Hstep m_N c Hinv)
@@ -816,9 +816,9 @@ Section LimitExec.
       mfpasses ft n (oexpr_of cnd) (prog_of inc) (prog_of body) m_N c0 cl /\ Inv cl /\
       eval_opt ML (funs_of ft) (SEMM ft n) (Expr.SInt 0) (oexpr_of cnd) cl = Fin (v, c1) /\ Expr.to_b v = true /\
       SEMM ft n (prog_of body) c1 = Fin (sg, c2) /\ (sg = Normal \/ sg = Cont) /\
-      wf (set_world c2 (add_log (world c2) (limit_msg true line))) /\
+      wf (set_world c2 (add_log (world c2) (limit_msg (s_ja (world c2)) true line))) /\
       exec_s (S n) (SFor init cnd inc body line :: rest) (Ok (emb ft m c))
-      = exec_s (S n) rest (Ok (emb ft m (set_world c2 (add_log (world c2) (limit_msg true line))))).
+      = exec_s (S n) rest (Ok (emb ft m (set_world c2 (add_log (world c2) (limit_msg (s_ja (world c2)) true line))))).
   Proof.
     intros Hwf Hok Hinit Hstep Hinv.
     destruct (for_never_ends _ _ _ _ _ _ _ _ ML (funs_of ft) (SEMM ft n) Inv (oexpr_of cnd) (prog_of inc) (prog_of body) line Hstep m_N c0 Hinv)
